@@ -184,14 +184,21 @@ package chain
 //@   && (forall i int :: { m.txpool.txns[i] } 0 <= i && i < len(m.txpool.txns) ==> (m.txpool.txns[i].ID() in m.txpool.indices) && m.txpool.indices[m.txpool.txns[i].ID()] == i)
 //@   && (forall i int :: { m.txpool.v2txns[i] } 0 <= i && i < len(m.txpool.v2txns) ==> (m.txpool.v2txns[i].ID() in m.txpool.indices) && m.txpool.indices[m.txpool.v2txns[i].ID()] == i)
 //
+// The index map and the two slices agree whenever a validated mid-state is cached (a reorg filters
+// the slices and drops the mid-state; the next revalidation rebuilds the indices): the standing
+// invariant under the manager's lock. revalidatePool returns at once when the mid-state is cached
+// and the pool is not over weight, so what it ensures rests on that invariant at entry.
+//@ pred poolInvWeak(m *Manager) = m.txpool.ms != nil ==> poolInv(m)
 //@ func (*Manager).revalidatePool
 //@   assigns heap:Manager, elems:types.Transaction, elems:types.V2Transaction, map:map[types.TransactionID]int
 //@   requires m != nil
-//@   ensures poolInv(m)
+//@   requires [lock-invariant] poolInvWeak(m)
+//@   ensures poolInv(m) && m.txpool.ms != nil
 //@   ensures m.store == old(m.store) && m.tipState == old(m.tipState)
 //
 //@ func (*Manager).PoolTransaction props C14,C05
 //@   ensures [revalidated] called("revalidatePool")
+//@   assumeafter Lock [lock-invariant] : poolInvWeak(m)
 //@   nopanic
 //@   requires m != nil
 //@   ensures [id] result1 ==> result0.ID() == id
@@ -199,6 +206,7 @@ package chain
 //
 //@ func (*Manager).V2PoolTransaction props C14,C05
 //@   ensures [revalidated] called("revalidatePool")
+//@   assumeafter Lock [lock-invariant] : poolInvWeak(m)
 //@   nopanic
 //@   requires m != nil
 //@   ensures [id] result1 ==> result0.ID() == id
@@ -374,6 +382,7 @@ package chain
 // after the initial revalidation (same lengths, same indexed ids).
 //@ func (*Manager).AddPoolTransactions props C14,C05
 //@   ensures [revalidated] called("revalidatePool")
+//@   assumeafter Lock [lock-invariant] : poolInvWeak(m)
 //@   requires m != nil
 //@   ghostvar preLen int
 //@   ghostvar preLen2 int
@@ -400,6 +409,7 @@ package chain
 //
 //@ func (*Manager).AddV2PoolTransactions props C14,C05
 //@   ensures [revalidated] called("revalidatePool")
+//@   assumeafter Lock [lock-invariant] : poolInvWeak(m)
 //@   requires m != nil && m.store != nil
 //@   ghostvar preLen int
 //@   ghostvar preLen1 int
@@ -513,6 +523,7 @@ package chain
 // isCopy(t) is only ever established by DeepCopy (assumed contract on core).
 //@ func (*Manager).V2PoolTransactions props C14,C05
 //@   ensures [revalidated] called("revalidatePool")
+//@   assumeafter Lock [lock-invariant] : poolInvWeak(m)
 //@   nopanic
 //@   requires m != nil
 //@   loop "range m.txpool.v2txns"
@@ -523,6 +534,7 @@ package chain
 //
 //@ func (*Manager).TransactionsForPartialBlock props C14,C05
 //@   ensures [revalidated] called("revalidatePool")
+//@   assumeafter Lock [lock-invariant] : poolInvWeak(m)
 //@   requires m != nil
 //@   loop "range missing"
 //@     invariant m == old(m) && len(v2txns) == 0
@@ -726,6 +738,7 @@ package chain
 // in which the inputs name them), followed by txn; on success the basis is the tip.
 //@ func (*Manager).V2TransactionSet props C13,C05
 //@   ensures [revalidated] called("revalidatePool")
+//@   assumeafter Lock [lock-invariant] : poolInvWeak(m)
 //@   nopanic
 //@   requires m != nil && m.store != nil
 //@   loop "range txn.SiacoinInputs"
@@ -773,14 +786,17 @@ package chain
 //@   nopanic
 //@   requires m != nil
 //@   ensures [revalidated] called("revalidatePool")
+//@   assumeafter Lock [lock-invariant] : poolInvWeak(m)
 //@   ensures [snapshot] len(result) == len(m.txpool.txns) && (forall i int :: { result[i] } 0 <= i && i < len(result) ==> result[i] == m.txpool.txns[i])
 //@   ensures [own-memory] len(result) > 0 ==> !sameArray(result, m.txpool.txns)
 //@ func (*Manager).UnconfirmedParents props C05
 //@   requires m != nil
 //@   ensures [revalidated] called("revalidatePool")
+//@   assumeafter Lock [lock-invariant] : poolInvWeak(m)
 //@ func (*Manager).RecommendedFee props C05
 //@   requires m != nil
 //@   ensures [revalidated] called("revalidatePool")
+//@   assumeafter Lock [lock-invariant] : poolInvWeak(m)
 //
 // ---------------------------------------------------------------------------
 // C02: applying a block's element diffs and reverting them are inverse on the element buckets.
